@@ -157,21 +157,45 @@ def run(ctx: Ctx) -> None:
 
     # ---- R3 offspring gene containers
     n3 = 0
-    for f in prog.implementations(REPR_MUT, "mutate") + prog.implementations(REPR_XO, "crossover"):
+    from .common import operator_instances
+    from ..astutil import is_self_attr as _isa3
+
+    def _dna_ctor_sites(f):
+        """(call in f, expression in f that becomes the offspring's dna, genotype class): constructor calls in the operator itself, and - one level
+        down - in a hook of the receiving class (self.make_genotype(parent, dna)) that hands one of its parameters to the constructor"""
         for c in walk_local(f.node):
             if not isinstance(c, ast.Call):
                 continue
             t = res.resolve(f, c)
-            if t.kind != "ctor" or t.cls is None or "dna" not in {k for k in t.cls.class_attrs}:
-                continue
-            gcls = t.cls
+            if t.kind == "ctor" and t.cls is not None and "dna" in {k for k in t.cls.class_attrs}:
+                fields = [k for k, v in t.cls.class_attrs.items() if isinstance(v, ast.AnnAssign)]
+                idx = fields.index("dna")
+                arg = next((k.value for k in c.keywords if k.arg == "dna"), None) or (c.args[idx] if len(c.args) > idx else None)
+                if arg is not None:
+                    yield c, arg, t.cls
+            elif _isa3(c.func) and f.cls is not None:
+                g = prog.lookup_method(f.cls, c.func.attr)
+                if g is None or g is f or not isinstance(g.node, (ast.FunctionDef, ast.AsyncFunctionDef)):
+                    continue
+                gps = [p_ for p_ in g.params if p_ != "self"]
+                for c2 in walk_local(g.node):
+                    if not isinstance(c2, ast.Call):
+                        continue
+                    t2 = res.resolve(g, c2)
+                    if t2.kind != "ctor" or t2.cls is None or "dna" not in {k for k in t2.cls.class_attrs}:
+                        continue
+                    fields = [k for k, v in t2.cls.class_attrs.items() if isinstance(v, ast.AnnAssign)]
+                    idx = fields.index("dna")
+                    a2 = next((k.value for k in c2.keywords if k.arg == "dna"), None) or (c2.args[idx] if len(c2.args) > idx else None)
+                    if isinstance(a2, ast.Name) and a2.id in gps:
+                        pos = gps.index(a2.id)
+                        arg = next((k.value for k in c.keywords if k.arg == a2.id), None) or (c.args[pos] if len(c.args) > pos else None)
+                        if arg is not None:
+                            yield c, arg, t2.cls
+
+    for f in operator_instances(prog, REPR_MUT, "mutate") + operator_instances(prog, REPR_XO, "crossover"):
+        for c, arg, gcls in _dna_ctor_sites(f):
             grows = any(ma.param_mutations(m, 0, 3) for m in gcls.methods.values() if m.params and m.params[0] == "self" and m.name != "__init__")
-            # position of the dna argument
-            fields = [k for k, v in gcls.class_attrs.items() if isinstance(v, ast.AnnAssign)]
-            idx = fields.index("dna")
-            arg = next((k.value for k in c.keywords if k.arg == "dna"), None) or (c.args[idx] if len(c.args) > idx else None)
-            if arg is None:
-                continue
             n3 += 1
             roots = [p_ for p_ in f.params if p_ == "genotype" or p_.startswith("parent")]
             ma.analyse(f, {r_: 0 for r_ in roots}, probes=[arg])
